@@ -82,7 +82,9 @@ func LookupWellKnown(ctx context.Context, serverNameType spec.ServerName) (*Well
 	}
 
 	// Figure out when the cache expiry time of this well-known record is
-	cacheControlHeader := resp.Header.Get("Cache-Control")
+	// (a response may carry several Cache-Control header lines; together they mean
+	// what one line with all the directives, separated by commas, means)
+	cacheControlHeader := strings.Join(resp.Header.Values("Cache-Control"), ",")
 	expiresHeader := resp.Header.Get("Expires")
 
 	expiryTimestamp := int64(0)
